@@ -225,6 +225,9 @@ fn valid_cell_twin(l: &Layout, f: usize, i: u32) -> bool {
 }
 
 fn expected_tag(fd: &crate::layout::Field, bits: u128) -> u8 {
+    if fd.claims_exhaustive {
+        return TAG_PLAIN;
+    }
     match fd.legal_values() {
         Some(vs) => {
             if vs.contains(&bits) {
@@ -239,12 +242,10 @@ fn expected_tag(fd: &crate::layout::Field, bits: u128) -> u8 {
 
 fn valid_value(l: &Layout, f: usize, v: u128) -> bool {
     let fd = &l.fields[f];
-    if v > mask(fd.value_width()) {
-        return false;
-    }
     match fd.legal_values() {
+        // (class-E probes declare discriminants that do not fit the field: still "legal" to write)
         Some(vs) => vs.contains(&v),
-        None => true,
+        None => v <= mask(fd.value_width()),
     }
 }
 
